@@ -85,7 +85,8 @@ DumpPlans == i = 0 => \A x \in Apis : PrintT(ToJson([api |-> x[1], suite |-> x[2
 
 RowOK(r) ==
   LET c == r.calls IN
-  IF r.mode = "plan" THEN r.ret = r.exp /\ Len(r.ret) = (IF r.api = "SkToPk" THEN 48 ELSE 96)   \* API output = plan result
+  IF r.mode = "plan" THEN /\ r.ret = r.exp /\ Len(r.ret) = (IF r.api = "SkToPk" THEN 48 ELSE 96)   \* API output = plan result
+                          /\ (r.api = "Aggregate" /\ Len(r.sigs) = 1 => r.ret = r.sigs[1])
   ELSE
   CASE r.api = "SkToPk" ->
          /\ Len(c) = 2 /\ IsSkToPk(r, c, 1, r.ret)
@@ -106,6 +107,7 @@ RowOK(r) ==
          IN /\ Len(c) = Len(dec) + Len(adds) + Len(enc)
             /\ Len(dec) = Len(r.sigs) /\ \A k \in 1..Len(dec) : dec[k].bytes = r.sigs[k]   \* each decoded once, in order
             /\ Len(enc) = 1 /\ enc[1].bytes = r.ret /\ Len(r.ret) = 96
+            /\ (Len(r.sigs) = 1 => r.ret = r.sigs[1])        \* the canonical encoding of one accepted point is itself
             /\ LET left == SumTree([k \in 1..(Len(dec) + 1) |-> IF k = 1 THEN r.z2 ELSE dec[k - 1].out], adds, 1)
                IN left = <<enc[1].p>> \/ left = <<r.z2, enc[1].p>> \/ left = <<enc[1].p, r.z2>>
     [] OTHER -> FALSE
